@@ -329,6 +329,7 @@ func main() {
 	write(filepath.Join(out, "FuncsIO.lean"), effectful)
 	// internal/difflib/difflib.go: the matcher itself (difflibgen.go)
 	write(filepath.Join(out, "DifflibGen.lean"), extractDifflib(difflib, F))
+	repoRoot = repo
 	if len(os.Args) > 4 && os.Args[3] == "-write-prims" {
 		checkPrims(F, map[string]*pkgInfo{"snaps": snaps, "match": match}, os.Args[4])
 		return
